@@ -13,6 +13,7 @@ from __future__ import annotations
 import random
 
 from ..common import Ctx
+from .. import examples
 from . import grading as g
 from . import grading_judge
 
@@ -72,6 +73,8 @@ def run(ctx: Ctx) -> None:
                 ctx.violation(bad[0], bad[1], {"cfg": g.summarize(cfg), "observed": obs["outcome"], "schedule": k})
             ctx.validated()
         ctx.sample(g.summarize(cfg))
+    # the repository's example scripts as recorded executions: File.tla CountsAgree on every dictionary they write
+    examples.judge_examples(ctx, "C01")
     grading_judge.random_assemblies(ctx, "C01", n=40 if ctx.tier == "quick" else 400)
 
 
